@@ -141,6 +141,8 @@ fn boundary_loops(boundary_map: HashMap<u32, u32>) -> Vec<Vec<u32>> {
     let mut queue: HashSet<u32> = boundary_map.keys().copied().collect();
 
     while !queue.is_empty() {
+        #[cfg(feature = "verif")]
+        crate::verif_hooks::tick("edges::boundary_loops");
         if let Some(last_id) = working.last() {
             let next_id = boundary_map[last_id];
             queue.remove(&next_id);
